@@ -99,3 +99,31 @@ def out(self, output_port, value):
     replay('stored_only_if_accepted', 'output_emission')
     replay('other_outputs_kept', 'output_emission')
     replay('raises_only_declared', 'output_emission')
+
+
+@contract('plumpy.ports.PortNamespace.validate_ports', assumed=True, dispatch='static')
+def validate_ports(self, port_values, breadcrumbs):
+    """ASSUMED (recursion over the declared ports; each port's own verdict is Port.validate / this function): None or an error"""
+    modifies(user_effects, contents(port_values))
+    ensures(ret is None or isinstance(ret, PortValidationError))
+    raises(Exception, True)
+
+
+@contract('plumpy.ports.PortNamespace.validate', dispatch='static', props=['C11', 'C12'])
+def namespace_validate(self, port_values=None, breadcrumbs=()):
+    """the verdict of a namespace on the value given for it: only None and the UNSPECIFIED marker stand for 'nothing given'; any
+    other value that is not a mapping -- falsy ones included -- is refused without consulting ports or validator"""
+    requires(isinstance(self, PortNamespace))
+    # input shapes the unit is verified for (not demanded from callers, who only rely on `a_verdict`): the value given is nothing, a
+    # plain dict or a non-mapping atom / list; breadcrumbs are a tuple or list; the validator, if any, is user code
+    assumes('shapes', is_str(self._name) and (is_tuple(breadcrumbs) or is_list(breadcrumbs))
+            and (port_values is None or port_values is plumpy.ports.UNSPECIFIED or is_dict(port_values) or is_int(port_values)
+                 or is_str(port_values) or is_bool(port_values) or is_list(port_values))
+            and (self._validator is None or (is_heap_obj(self._validator) and not is_function(self._validator))))
+    n0 = len(calls())
+    nothing = port_values is None or port_values is plumpy.ports.UNSPECIFIED
+    modifies(user_effects)
+    ensures('a_verdict', ret is None or isinstance(ret, PortValidationError))
+    ensures('not_a_mapping_is_refused', implies(not nothing and not is_dict(port_values), isinstance(ret, PortValidationError) and len(calls()) == n0))
+    raises(Exception, True)
+    replay('not_a_mapping_is_refused', 'output_emission')
